@@ -90,7 +90,15 @@ func (b *fencedCodeBlockParser) Continue(node ast.Node, reader text.Reader, pc C
 	pos, padding := util.IndentPositionPadding(line, reader.LineOffset(), segment.Padding, fdata.indent)
 	if pos < 0 {
 		// line includes the virtual padding of the segment
-		pos = util.FirstNonSpacePosition(line) - segment.Padding
+		fn := util.FirstNonSpacePosition(line)
+		if fn < 0 {
+			// a blank line: all of its white space is indentation
+			fn = len(line)
+			if fn > 0 && line[fn-1] == '\n' {
+				fn--
+			}
+		}
+		pos = fn - segment.Padding
 		if pos < 0 {
 			pos = 0
 		}
